@@ -3,6 +3,7 @@
 package main
 
 import (
+	"os"
 	"time"
 
 	"github.com/tikv/client-go/v2/verifx/hub"
@@ -196,6 +197,30 @@ func c03Triple(r *vx.Rand) {
 	recoverAndAudit(w, s.keys, r, r.Intn(6), a)
 }
 
+// agedShape: a shape whose transaction is OLD when Commit is called — more than MaxTxnTimeUse (24 h; 2PC and 1PC, the async
+// modes only with HUBRUN_OLD_ASYNC, see genShape) or a few seconds (beyond the async-commit safe window: the store refuses
+// one-phase / async commit because of max_commit_ts) — with the safe window widened or not, mostly in one region so that
+// one-phase commit is really tried.
+func agedShape(r *vx.Rand, i int) shape {
+	s := genShape(r)
+	if r.Chance(60) {
+		s.layout = nil
+	}
+	if i%2 == 0 {
+		s.ageMs = 25*3600*1000 + int64(r.Intn(3600*1000))
+		s.wideWindow = r.Chance(70)
+		s.mode = []string{"1pc", "2pc", "1pc"}[(i/2)%3]
+		if os.Getenv("HUBRUN_OLD_ASYNC") != "" {
+			s.mode = modes[(i/2)%len(modes)]
+		}
+	} else {
+		s.ageMs = 2500 + int64(r.Intn(8000))
+		s.wideWindow = r.Chance(25)
+		s.mode = []string{"both", "1pc", "async", "both"}[(i/2)%4]
+	}
+	return s
+}
+
 func runC03() {
 	nShapes := 60
 	if run.Thorough() {
@@ -206,6 +231,14 @@ func runC03() {
 	for i := 0; i < 12; i++ {
 		c03Triple(rnd.Fork())
 		rec.Count("c03:family:triple")
+	}
+	for i := 0; i < 12; i++ {
+		// old transactions: the answer of Commit against the store, without faults and with one fault
+		r := rnd.Fork()
+		s := agedShape(r, i)
+		c03Scenario(s, nil, r.Fork())
+		c03Scenario(s, []c03Fault{{pick(r, c03Kinds), r.Intn(4)}}, r.Fork())
+		rec.Count("c03:family:aged")
 	}
 	for n := 0; n < nShapes; n++ {
 		r := rnd.Fork()
